@@ -88,6 +88,8 @@ def _unwrap_item(it: Item) -> Any:
         return list(it.kids)
     if k == "iter":
         return _iter_kids(it.kids)
+    if k == "iter_empty":
+        return _iter_kids([])          # a @yields_frames iterator that finishes without yielding: "nothing here", like ()
     if k == "single":
         assert len(it.kids) == 1
         return it.kids[0]
@@ -165,7 +167,7 @@ def linearise(t: Any) -> List[Any]:
     if t[0] == "I":
         if t[1] in ("none", "boom"):
             return [("X", id(t))]  # an irreducible Item is a leaf in its own right
-        if t[1] == "empty":
+        if t[1] in ("empty", "iter_empty"):
             return []
         out: List[Any] = []
         for k in t[2]:
@@ -243,7 +245,7 @@ def _to_nodes(t: Any) -> Optional[_N]:
         if t[0] == "I" and t[1] in ("none", "boom"):
             return _N("L", ("X", id(t)))
         n = _N("seq")
-        kids = [] if (t[0] == "I" and t[1] == "empty") else (t[2] if t[0] == "I" else t[1])
+        kids = [] if (t[0] == "I" and t[1] in ("empty", "iter_empty")) else (t[2] if t[0] == "I" else t[1])
         for k in kids:
             c = _to_nodes(k)
             if c is not None:
@@ -340,7 +342,7 @@ def lin_depth(t: Any, d: int) -> List[List[Any]]:
     kids = t[2] if t[0] == "I" else t[1]
     if t[0] == "I" and t[1] in ("none", "boom"):
         return [[("X", id(t)), d]]
-    if t[0] == "I" and t[1] == "empty":
+    if t[0] == "I" and t[1] in ("empty", "iter_empty"):
         return []
     out: List[List[Any]] = []
     for k in kids:
